@@ -257,12 +257,12 @@ func checkNSNameFilter(c *Ctx) {
 	}
 	checkPure(c, "T-PURE(Accept)", fn)
 	pos := c.P.fnPos(fn)
-	loops := findLoops(fn)
+	loops := findLoopsDeep(c.P, fn)
 	if len(loops) != 1 {
 		c.fail(rule, "filter:nsNameFilter.Accept/single-loop", pos, "expected one loop over the partial entries")
 		return
 	}
-	inl := map[*ssa.Function]bool{}
+	inl := autoInline(c.P, fn, 60)
 	for _, n := range [][2]string{{"nsname", "ForObject"}, {"nsname", "New"}} {
 		if f := c.P.Func(n[0], n[1]); f != nil {
 			inl[f] = true
@@ -387,9 +387,10 @@ func checkNSNameFilter(c *Ctx) {
 	c.runTable(ts, "filter:nsNameFilter.Accept", pos, ps)
 	// constructor: both fields non-empty → fullset; otherwise → partials
 	if cf := c.mustFunc("filter", "NSName"); cf != nil {
-		loops := findLoops(cf)
+		loops := findLoopsDeep(c.P, cf)
 		ok, detail := len(loops) == 1, ""
 		if ok {
+			c.useFn(loops[0].fn())
 			cps := (&Walker{P: c.P}).LoopRegion(cf, loops[0])
 			c.paths += len(cps)
 			for _, pa := range cps {
@@ -431,11 +432,20 @@ func checkNSNameFilter(c *Ctx) {
 			detail = "expected one loop over ids"
 		}
 		// the filter's own storage is fresh: neither collection aliases the caller's variadic slice
-		for _, b := range cf.Blocks {
-			for _, in := range b.Instrs {
-				if sl, isSl := in.(*ssa.Slice); isSl {
-					if _, fromParam := sl.X.(*ssa.Parameter); fromParam {
-						ok, detail = false, "the filter's entry list is built by re-slicing the caller's argument slice: later changes of that slice (or a second filter built from it) change what this filter accepts"
+		var scan []*ssa.Function
+		for g := range c.P.ownerClosure(cf) { // NSName and the private helpers only it calls
+			scan = append(scan, g)
+		}
+		for _, g := range scan {
+			for _, b := range g.Blocks {
+				for _, in := range b.Instrs {
+					if sl, isSl := in.(*ssa.Slice); isSl {
+						if pv, fromParam := sl.X.(*ssa.Parameter); fromParam {
+							if _, isSlice := pv.Type().Underlying().(*types.Slice); !isSlice {
+								continue
+							}
+							ok, detail = false, "the filter's entry list is built by re-slicing the caller's argument slice: later changes of that slice (or a second filter built from it) change what this filter accepts"
+						}
 					}
 				}
 			}
@@ -549,6 +559,18 @@ func receiverReads(c *Ctx, fn *ssa.Function) map[string]bool {
 			case *ssa.DebugRef:
 			case *ssa.ChangeType, *ssa.MakeInterface:
 				reads["*"] = true
+			case *ssa.Call:
+				// handed to a same-package helper (`f.matches(set)`): what the helper reads of it
+				g := x.Call.StaticCallee()
+				if g == nil || g.Blocks == nil || g.Pkg != fn.Pkg || x.Call.IsInvoke() {
+					reads["*"] = true
+					break
+				}
+				for i, a := range x.Call.Args {
+					if a == v && i < len(g.Params) {
+						visit(g.Params[i], depth+1)
+					}
+				}
 			default:
 				reads["*"] = true
 			}
@@ -845,11 +867,12 @@ func checkCompareFilterList(c *Ctx) {
 	}
 	rule := "T-TABLE(compareFilterList)"
 	pos := c.P.fnPos(fn)
-	loops := findLoops(fn)
+	loops := findLoopsDeep(c.P, fn)
 	if len(loops) != 1 {
 		c.fail(rule, "filter:compareFilterList/single-loop", pos, "expected one loop over the indices")
 		return
 	}
+	c.useFn(loops[0].fn())
 	a, b := fn.Params[0].Name(), fn.Params[1].Name()
 	// prelude: lengths differ → false
 	pre := (&Walker{P: c.P}).PreludeRegion(fn, loops[0])
